@@ -5,11 +5,9 @@
    generic admission (Model/VRFAdmit.v) with the Z-instance of verification, the message format
    (Model/VRFMsg.v) and the recovery relation of Model/DKGZ.v. *)
 From Coq Require Import List ZArith Bool String.
-From ZC Require Import Base.Corr Model.DKGZ Model.VRFAdmit Model.VRFMsg.
+From ZC Require Import Base.Corr Model.DKGZ Model.VRFAdmit Model.VRFMsg Model.VRFZ.
 Import ListNotations.
 Open Scope Z_scope.
-
-Record vzc_ev := { vze_tc : bool; vze_id : Z; vze_dlog : option Z }.
 
 Record vzc_case := {
   vzc_t : nat;
@@ -23,17 +21,6 @@ Record vzc_case := {
   vzc_hints : list Z;             (* Lagrange coefficient candidates for the admitted ids, admission order *)
   vzc_seed : option Z             (* dlog of the signature whose hash is the round's VRF output; None = no seed *)
 }.
-
-Definition vz_sk (members : list (Z * Z)) (id : Z) : option Z :=
-  match find (fun m => Z.eqb (fst m) id) members with Some m => Some (snd m) | None => None end.
-
-Definition vz_verify (members : list (Z * Z)) (ev : vzc_ev) : bool :=
-  match vze_dlog ev, vz_sk members (vze_id ev) with
-  | Some d, Some sk => dz_verify sk d
-  | _, _ => false
-  end.
-
-Definition vz_same (a b : vzc_ev) : bool := Z.eqb (vze_id a) (vze_id b).
 
 Definition vzc_check (c : vzc_case) : bool :=
   let '(st, oks) := va_run vze_tc vz_same (vz_verify (vzc_members c)) (vzc_t c) [] (vzc_evs c) in
